@@ -4,6 +4,7 @@ import (
 	"fmt"
 	"go/token"
 	"go/types"
+	"regexp"
 	"sort"
 	"strings"
 
@@ -299,11 +300,16 @@ func runC13(c *Ctx) {
 			c.Unresolved("C13.G1", v.key+".IsValidOriginalDocument")
 			continue
 		}
+		// (the document looked at is the payload as the document package decodes it — a generic map, member names matched
+		// exactly: a struct with json tags matches names case-insensitively and lets the last duplicate win)
+		decoded := func(s string) bool { return strings.Contains(s, "FromBytes($1)#0") }
 		c.CheckGuard("C13.G1", v.key+":id-refused", f, nil, cmpReject(`doc.ID() != "" rejected`, token.NEQ, func(s string) bool {
-			return strings.Contains(s, ").ID(") || (strings.Contains(s, ").GetStringValue(") && strings.HasSuffix(s, `,"id")`))
+			return decoded(s) && (strings.Contains(s, ").ID(") || (strings.Contains(s, ").GetStringValue(") && strings.HasSuffix(s, `,"id")`)))
 		}, pathIs(`""`)))
 		if v.key == "didvalidator" {
-			c.CheckGuard("C13.G1", v.key+":context-refused", f, nil, cmpReject("len(context) != 0 rejected", token.NEQ, func(s string) bool { return strings.HasPrefix(s, "len(") && strings.Contains(s, ").Context(") }, pathIs("0")))
+			c.CheckGuard("C13.G1", v.key+":context-refused", f, nil, cmpReject("len(context) != 0 rejected", token.NEQ, func(s string) bool {
+				return decoded(s) && strings.HasPrefix(s, "len(") && strings.Contains(s, ").Context(")
+			}, pathIs("0")))
 		}
 	}
 	// well-formed JWK (where one is required): kty present; RSA needs n and e; other key types need crv and x
@@ -455,7 +461,11 @@ func (c *Ctx) keyRules(key string, entry *ssa.Function, K pathPred, idRules func
 	k := key + ":key"
 	kID := wrapP("(document.PublicKey).ID", K)
 	kType := wrapP("(document.PublicKey).Type", K)
-	kPurp := wrapP("(document.PublicKey).Purpose", K)
+	// (the purposes of the key: through its accessor, or read from the member the accessor reads)
+	kPurpA := wrapP("(document.PublicKey).Purpose", K)
+	kPurpB := wrapP("document.StringArray", sufP(K, `["purposes"]`))
+	kPurpC := wrapP("document.StringArray", sufP(K, `["purposes"]#0`))
+	kPurp := func(s string) bool { return kPurpA(s) || kPurpB(s) || kPurpC(s) }
 	idRules(k, entry, kID, false)
 	noDup(k, entry, kID)
 	onKey := func(call *ssa.Call, cc *Ctx, env Env) (*ssa.Function, bool) {
@@ -696,16 +706,34 @@ func (c *Ctx) serviceRules(key string, entry *ssa.Function, S pathPred, idRules 
 // (uri rules); the accepting early return (validate only the first) is a failure.
 func (c *Ctx) endpointListRule(k string, entry *ssa.Function, E pathPred, uriOK func(pathPred) []*GCheck, notString func(pathPred) *GCheck) {
 	n := 0
+	type variant struct {
+		ts        string
+		el, u     pathPred
+		orNotText bool
+	}
+	var vs []variant
 	for _, ts := range []string{"[]string", "[]interface{}"} {
 		el := elemOfP(sufP(E, ".("+ts+")#0"))
-		u := el
 		if ts == "[]interface{}" {
-			u = sufP(el, ".(string)#0")
+			vs = append(vs, variant{ts, el, sufP(el, ".(string)#0"), true})
+			// the string entries picked out by the document package's accessor (which keeps every string entry: C10.P1 /
+			// C13.G1 list-accessor rules) and validated as a list of texts
+			sa := elemOfP(wrapP("document.StringArray", sufP(E, ".("+ts+")#0")))
+			vs = append(vs, variant{ts, sa, sa, false})
+		} else {
+			vs = append(vs, variant{ts, el, el, false})
+		}
+	}
+	foundTs := map[string]bool{}
+	for _, vr := range vs {
+		ts, el, u := vr.ts, vr.el, vr.u
+		if foundTs[ts] {
+			continue
 		}
 		found := false
 		for i, ck := range uriOK(u) {
 			var chk *GCheck = ck
-			if ts == "[]interface{}" {
+			if vr.orNotText {
 				chk = anyOf("entry is not a string, or "+ck.Name, notString(el), ck)
 			}
 			seen := map[string]bool{}
@@ -743,6 +771,7 @@ func (c *Ctx) endpointListRule(k string, entry *ssa.Function, E pathPred, uriOK 
 		}
 		if found {
 			n++
+			foundTs[ts] = true
 		}
 	}
 	c.Check("C13.G1", k+":list-endpoint-handlers", n >= 2, entry.Pos(), fmt.Sprintf("%d list-endpoint loops ([]string and []interface{}) found in the call tree of %s", n, short(entry.String())))
@@ -765,7 +794,7 @@ func sufP(p pathPred, suf string) pathPred {
 
 // jwkValidateRules: Validate rejects a missing kty; for kty RSA a missing n or e; otherwise a missing crv or x.
 func (c *Ctx) jwkValidateRules(rule, key string, f *ssa.Function, member func(string) pathPred) {
-	c.CheckGuard(rule, key+":kty-required", f, nil, cmpReject(`kty == "" rejected`, token.EQL, member("Kty"), pathIs(`""`)))
+	c.CheckGuard(rule, key+":kty-required", f, nil, cmpRejectConst(`kty == "" rejected`, member("Kty"), `""`))
 	isRSA := cmpReject(`kty == "RSA"`, token.EQL, member("Kty"), pathIs(`"RSA"`))  // success edge: kty != RSA
 	notRSA := cmpAccept(`kty == "RSA"`, token.EQL, member("Kty"), pathIs(`"RSA"`)) // success edge: kty == RSA
 	for _, m := range []string{"N", "E"} {
@@ -773,6 +802,33 @@ func (c *Ctx) jwkValidateRules(rule, key string, f *ssa.Function, member func(st
 	}
 	for _, m := range []string{"Crv", "X"} {
 		c.CheckGuard(rule, key+":"+strings.ToLower(m)+"-required-unless-rsa", f, nil, anyOf("RSA, or "+m+" present", notRSA, cmpReject(m+` == "" rejected`, token.EQL, member(m), pathIs(`""`))))
+	}
+	// closed set of refusals: the function says no only because kty, n, e, crv or x is missing — a further demand (say, a
+	// y coordinate of every key that is not Ed25519) refuses keys the constructors accept and the protocol admits
+	{
+		reasons := c.rejectionReasons(f, nil, false, 2)
+		// each deciding condition is "member M is empty" for one of the five members, in any spelling of emptiness
+		empt := regexp.MustCompile(`^\((.+) (?:==|!=) ""\)=(?:true|false)$`)
+		emptLen := regexp.MustCompile(`^\(len\((.+)\) (?:==|!=|<=|>|<|>=) (?:0|1)\)=(?:true|false)$`)
+		var extra []string
+		for _, r := range reasons {
+			ok := false
+			m := empt.FindStringSubmatch(r)
+			if m == nil {
+				m = emptLen.FindStringSubmatch(r)
+			}
+			if m != nil {
+				for _, name := range []string{"Kty", "N", "E", "Crv", "X"} {
+					if member(name)(m[1]) {
+						ok = true
+					}
+				}
+			}
+			if !ok {
+				extra = append(extra, r)
+			}
+		}
+		c.Check(rule, key+":closed-set-of-refusals", len(reasons) > 0 && len(extra) == 0, f.Pos(), fmt.Sprintf("the JWK check refuses only for a missing kty, n, e, crv or x; other reasons: %v", extra))
 	}
 	// and the other way round: a member is demanded only of the key type it belongs to — the emptiness test of crv / x is
 	// reached only by keys that are not RSA, that of n / e only by RSA keys (a well-formed RSA key has no crv)
